@@ -204,4 +204,29 @@ example : runFrom .fixed id (init id)
     [.set 0 1, .cEnter 0 true, .cClear 0, .rTrack 0, .rStart 0, .wBegin 0, .cEnter 1 false, .cJoin 1] = none := by
   decide
 
+/-! ### the generation bump and the mutation it announces must be ONE critical section -/
+
+/-- `db[1] = v2; flush; ` then `del db[1]` split in two critical sections (bump first) with a complete
+request in between, then a quiescent request. -/
+def splitDeleteTrace : List SLabel :=
+  [.base (.set 1 2)] ++ (request 0).map .base ++ [.delBump] ++ (request 1).map .base ++ [.delRemove 1]
+  ++ [.base (.cEnter 2 true), .base (.cClear 2), .base (.rTrack 2), .base (.rStart 2), .base (.wBegin 2), .base (.wRet 2)]
+
+/-- With a non-atomic delete even the fixed mechanism loses the update: the request that runs between the
+bump and the removal copies the page that is about to disappear under the already-bumped generation
+and publishes it as clean; after the removal the store is empty, nothing is dirty, and the quiescent
+request 2 returns the cached result that still contains page 1.  (`quiescent_fresh` needs the atomic
+`del` of `step`; this is the seeded defect the free-scheduling stream of the harness finds.) -/
+theorem nonatomic_delete_refuted :
+    (runSplit .fixed id (init id) splitDeleteTrace).map (fun s => (s.store, dirty .fixed s)) = some ([], false) ∧
+    (runSplit .fixed id (init id) splitDeleteTrace).map (fun s => outcome? s 2) = some (some (.ok 2 [(1, 2)])) ∧
+    (runSplit .fixed id (init id) splitDeleteTrace).map (fun s => (s.ops[2]?).map (·.startGen)) = some (some 2) := by
+  decide
+
+/-- the same operations with the atomic `del` of the model: request 2 returns the empty store -/
+example :
+    (runFrom .fixed id (init id) ([.set 1 2] ++ request 0 ++ [.del 1] ++ request 1 ++
+        [.cEnter 2 true, .cClear 2, .rTrack 2, .rStart 2, .wBegin 2, .wRet 2])).map (fun s => outcome? s 2)
+      = some (some (.ok 2 [])) := by decide
+
 end SnootyVerif.C13
